@@ -258,6 +258,7 @@ impl RefR {
                         WinFrame::None => String::new(),
                         WinFrame::RowsBetweenPrecedingCurrent(n) => format!(" ROWS BETWEEN {} PRECEDING AND CURRENT ROW", self.val(&V::Int(*n as i64))),
                         WinFrame::RowsUnboundedFollowing(n) => format!(" ROWS BETWEEN UNBOUNDED PRECEDING AND {} FOLLOWING", self.val(&V::Int(*n as i64))),
+                        WinFrame::RowsUnboundedCurrent => " ROWS BETWEEN UNBOUNDED PRECEDING AND CURRENT ROW".to_string(),
                     };
                     format!("{e} OVER (PARTITION BY {} ORDER BY {} ASC{frame}) AS {}", self.q(part), self.q(ord), self.q(al))
                 }
